@@ -311,12 +311,33 @@ def compare_legs(run, tmp):
                    downsampling=rng.choice(['average', 'bilinear', 'cubic', 'average']),
                    upsampling=rng.choice(['cubic_spline', 'bilinear', 'nearest', 'cubic_spline']),
                    proc_crs=rng.choice(['auto', 'ref', 'src']))
-        kind = ['compare', 'fuse-flag', 'fuse-file', 'fuse-conf'][i % 4]
+        kind = ['compare', 'fuse-flag', 'fuse-file', 'fuse-conf', 'compare-multi'][i % 5]
         flags = ['-t', str(opt['threads']), '-mbm', repr(opt['max_block_mem']), '-ds', opt['downsampling'], '-us', opt['upsampling'],
                  '-pc', opt['proc_crs']]
         case = dict(i=500_000 + i, op=kind, options=opt, nb=nb)
         out_json = d / 'cmp.json'
-        if kind == 'compare':
+        if kind == 'compare-multi':
+            # several inputs in one call, one finer and one coarser than the reference: each is compared with the settings given,
+            # whatever the inputs before it resolved them to
+            coarse_px = ref.px * 2
+            cw, ch = max(4, (src.w * src.px) // coarse_px), max(4, (src.h * src.py) // coarse_px)
+            cg = rasters.Grid(src.x0, src.ytop, coarse_px, coarse_px, cw, ch, src.unit)
+            need_w = -(-(cg.x0 + cw * coarse_px - ref.x0) // ref.px) + 1
+            need_h = -(-(ref.ytop - (cg.ytop - ch * coarse_px)) // ref.py) + 1
+            if need_w > ref.w or need_h > ref.h:
+                ref2 = rasters.Grid(ref.x0, ref.ytop, ref.px, ref.py, max(ref.w, need_w), max(ref.h, need_h), ref.unit)
+                r_big = np.array([[[rng.randint(30, 150) for _ in range(ref2.w)] for _ in range(ref2.h)] for _ in range(nb)], float)
+                pair = fusion.write_pair(d, 'in', src, ref2, s, r_big, None, None)
+            cs = np.array([[[rng.randint(20, 200) for _ in range(cw)] for _ in range(ch)] for _ in range(nb)], float)
+            coarse_path = d / 'coarse_src.tif'
+            rasters.write_tif(coarse_path, cg, cs, dtype='float32', nodata=float('nan'))
+            order = [pair.src_path, coarse_path] if rng.random() < 0.5 else [coarse_path, pair.src_path]
+            opt['proc_crs'] = 'auto'
+            flags = ['-t', str(opt['threads']), '-mbm', repr(opt['max_block_mem']), '-ds', opt['downsampling'], '-us', opt['upsampling'],
+                     '-pc', 'auto']
+            args = ['compare', str(order[0]), str(order[1]), str(pair.ref_path), '--output', str(out_json)] + flags
+            expect = [dict(src=str(p_), ref=str(pair.ref_path), sb=None, rb=None, force=False) for p_ in order]
+        elif kind == 'compare':
             bands = []
             sb = rb = None
             if nb > 1 and rng.random() < 0.5:
@@ -359,7 +380,7 @@ def compare_legs(run, tmp):
             run.fail(case, f'`homonim {" ".join(args[:1])}` exited {res.exit_code}: {str(res.exception)[:120]} | args {args}',
                      signature=dict(kind='cli-error'))
             continue
-        if kind != 'compare':
+        if kind.startswith('fuse'):
             corr = sorted((d / 'out').glob('*.tif'))
             expect[1] = dict(src=str(corr[0]) if corr else None, ref=expect[0]['ref'], sb=None, rb=None, force=False)
         if len(calls) != len(expect):
@@ -386,9 +407,9 @@ def compare_legs(run, tmp):
                 bad = (f"statistics of the command-line comparison of {pathlib.Path(e['src']).name} differ from the API call with "
                        f"the same settings: Mean {c['result'].get('Mean')} vs {api.get('Mean')} (process kwargs seen: {c['kw']})")
                 break
-            if kind == 'compare':
+            if kind in ('compare', 'compare-multi'):
                 js = _json.loads(out_json.read_text())
-                got = js.get(str(pair.src_path))
+                got = js.get(str(e['src']))
                 if not close(_json.loads(_json.dumps(api)), got):
                     bad = '--output JSON does not hold the API statistics'
                     break
